@@ -382,6 +382,22 @@ class _FakeSocket:
             idx, fault = self.bus.begin()
             if fault is None and len(apdu) > 1:
                 fault = self.bus.cmd_fault(apdu[1], apdu[2] if len(apdu) > 2 else None)
+            if fault is not None and getattr(self.bus, "tcp_faults_as_hid", False) and \
+                    fault.kind in ("timeout", "read_error", "write_error"):
+                # a transport that reports its failures the way the HID one does (the
+                # exception shapes HSM2Dongle._send_command classifies): the request is
+                # lost, or - processed=True - carried out with the answer lost
+                from ledgerblue.commException import CommException
+                if fault.processed and fault.kind != "write_error":
+                    self.bus.process(apdu, idx, Fault(fault.kind, processed=True), self.handle)
+                else:
+                    self.bus.log("apdu", i=idx, h=self.handle, apdu=bytes(apdu), data=None,
+                                 sw=None, fault=repr(fault))
+                if fault.kind == "timeout":
+                    raise CommException("Timeout", 0x6F00)
+                if fault.kind == "read_error":
+                    raise OSError("read error")
+                raise BaseException("Error while writing")
             if fault is not None and fault.kind == "write_error":
                 self.bus.log("apdu", i=idx, h=self.handle, apdu=None, data=None,
                              sw=None, fault=repr(fault))
